@@ -117,6 +117,8 @@ func runC10(c *Ctx) {
 	b.flush()
 	c10MarshalKinds(c, b)
 	b.flush()
+	c10LegacyFloats(c, b)
+	b.flush()
 	if c.Thorough() {
 		c10Float32All(c)
 		c.SetExhaustive(true)
@@ -1254,7 +1256,8 @@ func c10CheckFloatParse(c *Ctx, b *c10Batch, lit string) {
 		}
 		switch {
 		case inf:
-			if err == nil || !errors.Is(err, strconv.ErrRange) {
+			// the v1 package rewrites the error (no ErrRange to match): only its presence is required there
+			if err == nil || (!errors.Is(err, strconv.ErrRange) && !strings.HasPrefix(rt.name, "v1/")) {
 				c.Violate("float-overflow-accepted", "json.Unmarshal/"+rt.name, in, map[string]any{"literal": trunc(lit, 200), "got": bits, "err": fmt.Sprint(err)})
 			}
 		case err != nil || bits != want:
@@ -1505,6 +1508,14 @@ func c10IntegerMidpoints(lo, hi float64, full bool, check func(lit string)) {
 			}
 		}
 	}
+	// the midpoint with a decimal tail far below half a float64 ulp, either side (a wider intermediate rounds it
+	// onto the midpoint first)
+	for _, sgn := range []string{"", "-"} {
+		check(sgn + m.String() + ".0000001")
+		check(sgn + m.String() + ".000000000000000000000000000001")
+		check(sgn + new(big.Int).Sub(m, bigOne).String() + ".9999999")
+		check(sgn + new(big.Int).Sub(m, bigOne).String() + ".999999999999999999999999999999")
+	}
 	for i, d := range ds {
 		x := new(big.Int).Add(m, d)
 		for _, v := range []*big.Int{x, new(big.Int).Neg(x)} {
@@ -1643,6 +1654,22 @@ func c10FloatParse(c *Ctx, b *c10Batch) {
 		e32 := uint32(127 - 60 + r.IntN(150))
 		g := math.Float32frombits(e32<<23 | r.Uint32()&(1<<23-1))
 		mid(float64(g), float64(math.Nextafter32(g, float32(math.Inf(1)))))
+	}
+	// float32 subnormals, the smallest normals and the largest finite values (exact expansions of ~150 digits)
+	for _, e32 := range []uint32{0, 0, 0, 1, 2, 252, 253, 254} {
+		for k := 0; k < c.N(3, 40); k++ {
+			g := math.Float32frombits(e32<<23 | r.Uint32()&(1<<23-1))
+			if up := math.Nextafter32(g, float32(math.Inf(1))); !math.IsInf(float64(up), 0) {
+				mid(float64(g), float64(up))
+			}
+		}
+	}
+	mid(0, float64(math.SmallestNonzeroFloat32))
+	mid(float64(math.Float32frombits(0x007fffff)), float64(math.Float32frombits(0x00800000)))
+	mid(float64(math.Float32frombits(0x7f7ffffe)), math.MaxFloat32)
+	for _, s := range []string{"1e39", "-1e39", "3.402823567797337e38", "3.4028235677973365e38", "-3.402823567797337e38", "1e300", "-1e300", "3.5e38", "1e38", "3.4028234e38",
+		"9000000000.0000001", "9000000511.9999999", "16777217.000000000000000000001", "16777216.999999999999999999", "1.17549421e-38", "1.17549435e-38", "1.4e-45", "7.1e-46", "6.9e-46"} {
+		c10CheckFloatParse(c, b, s)
 	}
 	// integer midpoints: every binary exponent at which the midpoint of adjacent floats is an integer
 	// (float32: 2^24…2^127; float64: 2^53… up to 40-digit literals), several mantissas per exponent
